@@ -55,7 +55,7 @@ macro_rules! for_all_types {
 			S1, S2, UnitS, Nt, Cp, Sk, E1, Disc, G<u8>, G<Vec<u16>>, G<Option<Box<u8>>>, Tr, Box<Tr>, Vec<Tr>, Option<E1>, (E1, Disc), Box<E1>, Vec<Disc>, [Disc; 3], Vec<Cp>, Vec<Sk>,
 			BTreeMap<u8, E1>, Result<E1, S2>,
 			TrC, Box<TrC>, [TrC; 2], Rc<TrC>, Vec<TrC>, TrK, Box<TrK>, Arc<TrK>, [TrK; 3], Option<Box<TrK>>, TrP, Box<TrP>, [TrP; 2], AllSk, Vec<AllSk>, [AllSk; 2], Box<AllSk>, (AllSk, u8),
-			LinkedList<AllSk>, VecDeque<AllSk>, FS, Vec<FS>, (FS, u8), Box<FS>, Vec<[u8; 256]>, Vec<[u64; 32]>, VecDeque<[u8; 100]>, Box<[u8; 20000]>, Box<[u32; 5000]>, Rc<[u16; 9000]>, EN, Vec<EN>, Box<EN>, Option<EN>, (EN, u8), SkP, Vec<SkP>, VecDeque<SkP>, [SkP; 3], Box<SkP>, Unit1, Vec<Unit1>, VecDeque<Unit1>, LinkedList<Unit1>, VecDeque<TrE>,
+			LinkedList<AllSk>, VecDeque<AllSk>, FS, Vec<FS>, (FS, u8), Box<FS>, Vec<[u8; 256]>, Vec<[u64; 32]>, VecDeque<[u8; 100]>, Box<[u8; 20000]>, Box<[u32; 5000]>, Rc<[u16; 9000]>, EN, Vec<EN>, Box<EN>, Option<EN>, (EN, u8), SkP, Vec<SkP>, VecDeque<SkP>, [SkP; 3], Box<SkP>, TrU, Box<TrU>, [TrU; 2], Vec<TrU>, (Box<TrU>, u8), Unit1, Vec<Unit1>, VecDeque<Unit1>, LinkedList<Unit1>, VecDeque<TrE>,
 			// one container after another (the depth bookkeeping of the first must be balanced)
 			(LinkedList<u8>, Vec<u16>), Vec<LinkedList<u8>>, [LinkedList<u16>; 2], (BTreeSet<u8>, Vec<u16>), (BTreeMap<u8, u8>, Vec<u16>), (VecDeque<u16>, Vec<Vec<u8>>), (BinaryHeap<u16>, Vec<u16>),
 			(Box<u8>, Vec<u16>), (Rc<u8>, Arc<u8>, Vec<u16>), (Vec<u16>, Vec<u16>, Vec<u16>), Vec<(Box<u8>, Vec<u8>)>, (Option<Box<u8>>, LinkedList<Vec<u8>>), [Unit1; 3], Box<Unit1>, Rc<Unit1>, (Unit1, u8), Option<Unit1>, BTreeMap<u8, Unit1>, TrE, Box<TrE>, Arc<TrE>, [TrE; 2], Vec<TrE>, (Box<TrE>, u8), OneV, OneSk, Vec<OneV>, Box<OneSk>,
